@@ -10,10 +10,12 @@ search : the statement itself in exact rational arithmetic on the implementation
          link rule, density bound / tie gap, mutual consistency, monotonicity, fresh twin),
          also through the data-driven subclasses
 """
+import atexit
 import contextlib
 import io
 import math
 import os
+import shutil
 import struct
 import tempfile
 from fractions import Fraction
@@ -316,16 +318,28 @@ def oracle_twin(ctx, case, net, last):
 
 # --------------------------------------------------------------------------
 
-def make_case(rng, N, nops, force=None):
-    S0, tags = gen_sim(rng, N)
-    grid = gen_grid(rng, N)
+def ops_of(lst):
+    return [(k, bool(v) if k == "L" else float(v)) for k, v in lst]
+
+
+def make_case(rng, N, nops, fixed=None):
+    if fixed is None:
+        S0, tags = gen_sim(rng, N)
+        grid = gen_grid(rng, N)
+        directed = rng.random() < 0.4
+        nl = rng.random() < 0.35
+        init = ("T", gen_threshold(rng, S0)) if rng.random() < 0.5 else \
+            ("D", gen_density(rng, N))
+        ops = gen_ops(rng, S0, N, nops)
+    else:
+        from pyunicorn.core import GeoGrid
+        S0 = np.array(fixed["similarity"], dtype=float)
+        tags = {"sym": bool(np.array_equal(S0, S0.T)), "diag": "replay", "levels": 0}
+        grid = GeoGrid(np.arange(3.0), np.array(fixed["lat"], dtype=float),
+                       np.array(fixed["lon"], dtype=float), silence_level=3)
+        directed, nl = bool(fixed["directed"]), bool(fixed["non_local"])
+        init, ops = ops_of([fixed["init"]])[0], ops_of(fixed["ops"])
     d32, d64 = damp_of(grid)
-    directed = rng.random() < 0.4
-    nl = rng.random() < 0.35
-    init = ("T", gen_threshold(rng, S0)) if rng.random() < 0.5 else ("D", gen_density(rng, N))
-    ops = gen_ops(rng, S0, N, nops)
-    if force:
-        init, ops, nl = force(S0, N)
     replay = {"N": N, "similarity": S0.tolist(), "lat": grid.lat_sequence().tolist(),
               "lon": grid.lon_sequence().tolist(), "directed": directed, "non_local": nl,
               "init": list(init), "ops": [list(o) for o in ops]}
@@ -362,19 +376,26 @@ SUBCLASSES = ["Tsonis", "Spearman", "PartialCorrelation", "MutualInfo", "Havlin"
               "HilbertUndirected", "Rainfall", "CoupledTsonis", "Coupled", "CoupledDirected"]
 
 
-def make_subclass_case(rng, nprng, cls, nops):
+def make_subclass_case(rng, nprng, cls, nops, fixed=None):
     import pyunicorn.climate as C
-    N = rng.choice([3, 4, 5, 6])
-    grid = gen_grid(rng, N)
-    T_obs = gen_data(rng, nprng, N)
-    T = T_obs.shape[0]
     from pyunicorn.core import GeoGrid
-    grid = GeoGrid(np.arange(T, dtype=float), grid.lat_sequence(), grid.lon_sequence(),
-                   silence_level=3)
     directed = cls == "CoupledDirected"
     sim_in = None
-    if cls in ("Coupled", "CoupledDirected"):
-        sim_in, _ = gen_sim(rng, 2 * N)
+    if fixed is None:
+        N = rng.choice([3, 4, 5, 6])
+        grid = gen_grid(rng, N)
+        T_obs = gen_data(rng, nprng, N)
+        lat, lon = grid.lat_sequence(), grid.lon_sequence()
+        if cls in ("Coupled", "CoupledDirected"):
+            sim_in, _ = gen_sim(rng, 2 * N)
+    else:
+        T_obs = np.array(fixed["observable"], dtype=float)
+        lat = np.array(fixed["layer_lat"], dtype=float)
+        lon = np.array(fixed["layer_lon"], dtype=float)
+        if fixed.get("similarity_in") is not None:
+            sim_in = np.array(fixed["similarity_in"], dtype=float)
+    T = T_obs.shape[0]
+    grid = GeoGrid(np.arange(T, dtype=float), lat, lon, silence_level=3)
 
     def builder(init, nl):
         kw = {"threshold": init[1]} if init[0] == "T" else {"link_density": init[1]}
@@ -408,15 +429,20 @@ def make_subclass_case(rng, nprng, cls, nops):
     if not np.all(np.isfinite(S0)):
         return None
     d32, d64 = damp_of(probe.grid)
-    nl = rng.random() < 0.35
-    thr = lambda: f32(gen_threshold(rng, S0))  # noqa: E731
     M = S0.shape[0]
-    init = ("T", thr()) if rng.random() < 0.5 else ("D", gen_density(rng, M))
-    ops = [(k, f32(v)) if k == "T" else (k, v) for k, v in gen_ops(rng, S0, M, nops)]
+    if fixed is None:
+        nl = rng.random() < 0.35
+        init = ("T", f32(gen_threshold(rng, S0))) if rng.random() < 0.5 else \
+            ("D", gen_density(rng, M))
+        ops = [(k, f32(v)) if k == "T" else (k, v) for k, v in gen_ops(rng, S0, M, nops)]
+    else:
+        nl = bool(fixed["non_local"])
+        init, ops = ops_of([fixed["init"]])[0], ops_of(fixed["ops"])
     offmax = float((S0 - np.diag(np.diag(S0))).max())
     tags = {"sym": bool(np.array_equal(S0, S0.T)), "levels": 0,
             "diag": "maximal" if float(np.diag(S0).min()) >= offmax else "non-maximal"}
     replay = {"class": cls, "N": M, "observable": T_obs.tolist(),
+              "layer_lat": list(map(float, lat)), "layer_lon": list(map(float, lon)),
               "similarity_in": None if sim_in is None else sim_in.tolist(),
               "stored_similarity": S0.tolist(), "lat": probe.grid.lat_sequence().tolist(),
               "lon": probe.grid.lon_sequence().tolist(), "directed": directed, "non_local": nl,
@@ -484,6 +510,28 @@ def exercise(ctx, case, reqs, impl, kept):
     kept.append(case)
 
 
+def scratch_cwd():
+    d = tempfile.mkdtemp(prefix="C09-")
+    atexit.register(shutil.rmtree, d, True)
+    os.chdir(d)
+
+
+def replay(ctx, rp):
+    """./check C09 --replay FILE: re-run the recorded case (oracle + correspondence)"""
+    r = rp["replay"]
+    scratch_cwd()
+    with contextlib.redirect_stdout(io.StringIO()):
+        if "class" in r:
+            case = make_subclass_case(None, None, r["class"], 0, fixed=r)
+        else:
+            case = make_case(None, int(r["N"]), 0, fixed=r)
+    reqs, impl, kept = [], [], []
+    with contextlib.redirect_stdout(io.StringIO()):
+        exercise(ctx, case, reqs, impl, kept)
+    if reqs:
+        ctx.correspond("replayed history", reqs, impl)
+
+
 def run(ctx):
     rng = ctx.rng
     quick = ctx.tier == "quick"
@@ -522,7 +570,7 @@ def run(ctx):
     # ---------------- subclasses deriving the similarity from data ---------------------------
     nprng = np.random.RandomState(rng.randrange(2 ** 31))
     sreqs, simpl, skept = [], [], []
-    os.chdir(tempfile.mkdtemp(prefix="C09-"))     # MutualInfo reads/writes a file in the cwd
+    scratch_cwd()     # MutualInfo reads/writes a file in the cwd
     for cls in SUBCLASSES:
         for _ in range(15 if quick else 150):
             with contextlib.redirect_stdout(io.StringIO()):
